@@ -126,15 +126,16 @@ def mk_read(t, dims, axes, variant='plain'):
         stages = [{'mod': 'wit', 'fn': '@W@', 'args': ['a', 'r'] + int_args(axes)}]
         obl = [{'kind': 'copy', 'region': 'r', 'ns': 'a', 'map': [q * per + c for q in sel for c in range(per)]}]
         ref = ''
-    elif variant in ('iadd', 'miadd', 'sum', 'msum'):
+    elif variant in ('iadd', 'miadd', 'isub', 'misub', 'imul', 'mimul', 'idiv', 'midiv', 'sum', 'msum'):
         # consumers that read the view through its LINEAR vector evaluator eval(idx) (compound assignment into a tensor, reductions);
         # plain assignment of a rank-2 view goes through the two-index evaluator instead
         const = '' if variant.startswith('m') else 'const '
         ct = CTYPE[cell]
-        if variant.endswith('iadd'):
-            wit = 'extern "C" void @W@(%s%s& a, const %s& b, %s& r%s){ r = b; r += %s; }' % (const, tensor_t(t, dims), tensor_t(t, ext), tensor_t(t, ext), params, call)
+        if not variant.endswith('sum'):
+            cop = {'add': '+', 'sub': '-', 'mul': '*', 'div': '/'}[variant[-3:]]
+            wit = 'extern "C" void @W@(%s%s& a, const %s& b, %s& r%s){ r = b; r %s= %s; }' % (const, tensor_t(t, dims), tensor_t(t, ext), tensor_t(t, ext), params, cop, call)
             regions += [treg('b', t, ext), treg('r', t, ext, 'out'), rreg('rref', t, len(sel)), {'name': 'idx', 'ety': 'i32', 'cells': len(sel), 'kind': 'raw', 'role': 'in', 'init': 'ints', 'ints': sel}]
-            ref = 'extern "C" void @R@(const %s* a, const %s* b, %s* r, const int* idx){ for(int k=0;k<%d;k++){ %s x = b[k]; x += a[idx[k]]; r[k] = x; } }' % (ct, ct, ct, len(sel), ct)
+            ref = 'extern "C" void @R@(const %s* a, const %s* b, %s* r, const int* idx){ for(int k=0;k<%d;k++){ %s x = b[k]; x %s= a[idx[k]]; r[k] = x; } }' % (ct, ct, ct, len(sel), ct, cop)
             stages = [{'mod': 'wit', 'fn': '@W@', 'args': ['a', 'b', 'r'] + int_args(axes)}, {'mod': 'ref', 'fn': '@R@', 'args': ['a', 'b', 'rref', 'idx']}]
             obl = [{'kind': 'equal', 'a': 'r', 'b': 'rref', 'cells': len(sel), 'mode': 'ALG'}]
         else:
